@@ -383,6 +383,8 @@ def long_schedule_st(draw, T):
         rel = [0] + list(np.cumsum(gaps, dtype=object))
     elif pat == "logfreq":  # LAMMPS logfreq(a, nper, b): a*(1..nper) * b^k
         nper, b = draw(st.sampled_from([(3, 10), (9, 10), (2, 4), (4, 8), (1, 2), (5, 10)]))
+        if base * nper * b ** (n // nper) + t0 >= 2 ** 52:
+            base = 1  # keep every timestep exactly representable as a double
         rel = [base * (1 + k % nper) * b ** (k // nper) for k in range(T)]
         rel = [r - rel[0] for r in rel]
     else:
@@ -745,7 +747,7 @@ FACETS = [
                "constant in time (C = 1 at every lag), purely imaginary, real stored as complex, one non-zero entry, "
                "scaled by 1e+-30 / 1e+-8; outputfile omitted / '' / plain / sub-directory / absolute; "
                "non-trivial = at least two edge classes at once"),
-    Facet("long_schedules", long_case(), check_series, quick=500, thorough=20000, describe=describe,
+    Facet("long_schedules", long_case(), check_series, quick=600, thorough=20000, describe=describe,
           shards_quick=3,
           rule="T 5..40, N 1..4: pow2-times, pow2-gaps, log-blocks, linear-then-log, logfreq, even-except-last / "
                "-first / -one-middle, two-rates, alternating-gaps, even; first timestep up to 5e9; evenness decided by "
